@@ -1,0 +1,55 @@
+// Copyright 2021 TiKV Project Authors.
+//
+// Licensed under the Apache License, Version 2.0 (the "License");
+// you may not use this file except in compliance with the License.
+// You may obtain a copy of the License at
+//
+//     http://www.apache.org/licenses/LICENSE-2.0
+//
+// Unless required by applicable law or agreed to in writing, software
+// distributed under the License is distributed on an "AS IS" BASIS,
+// See the License for the specific language governing permissions and
+// limitations under the License.
+
+//go:build verif
+// +build verif
+
+package tso
+
+import (
+	"time"
+
+	"go.etcd.io/etcd/clientv3"
+)
+
+// VerifNow, when set by a verification harness, substitutes the wall clock read by
+// SyncTimestamp and UpdateTimestamp of the oracle that uses the given etcd client.
+var VerifNow func(c *clientv3.Client, now time.Time) time.Time
+
+func verifNow(c *clientv3.Client, now time.Time) time.Time {
+	if VerifNow != nil {
+		return VerifNow(c, now)
+	}
+	return now
+}
+
+// VerifAllocatorUpdater runs one round of the allocator daemon's updater (allocatorUpdater).
+func (am *AllocatorManager) VerifAllocatorUpdater() { am.allocatorUpdater() }
+
+// VerifTSO exports the in-memory timestamp and the cached window of an allocator (read-only).
+func VerifTSO(a Allocator) (physical time.Time, logical int64, lastSaved time.Time) {
+	var t *timestampOracle
+	switch x := a.(type) {
+	case *GlobalTSOAllocator:
+		t = x.timestampOracle
+	case *LocalTSOAllocator:
+		t = x.timestampOracle
+	default:
+		return
+	}
+	physical, logical = t.getTSO()
+	if v := t.lastSavedTime.Load(); v != nil {
+		lastSaved = v.(time.Time)
+	}
+	return
+}
